@@ -110,6 +110,18 @@ CHECKS = {
                      "every magnitude and sign; the instruction lines of constructor, transfer (liquid and solids-only "
                      "sources, 4 unit kinds), dilute, fill_to, create_solution, create_solution_from and 7 recipe step "
                      "kinds name the actual objects and state the actual amount to the displayed precision."),
+    'C13': dict(engine=E2, design='§4 C13', category='other',
+                level_text="Symbolic execution of the real Slicer/Plate.__getitem__ code by CrossHair 0.0.110 (z3) over unbounded symbolic integers and bounded symbolic strings, differential against an independent reference model of the documented addressing rules. Conditions reported 'Confirmed over all paths' are exhaustive within the stated bounds; 'Not confirmed' ones are bug-hunting only (no counterexample within the time budget) and are listed as such in the evidence. Counterexamples are replayed natively before being reported.",
+                note="Trusted: CrossHair's models of int/str/Optional, z3, CPython, numpy basic slicing, the 40-line reference model in vf/xh/c13_conditions.py.",
+                technique="CrossHair symbolic execution (z3) of Plate.__getitem__ / Slicer over symbolic int/str selectors, differential vs a reference selection model",
+                text="14 selector forms x 4 (quick) / 7 (thorough) plate shapes and labelings: the wells selected by the real "
+                     "code, in order, equal the reference model's, and out-of-range / malformed selectors are rejected."),
+    'C14': dict(engine=E1, design='§4 C14',
+                technique="symx: symbolic values inside quantity/concentration strings, parsed value vs SI table (z3 / canonical forms); CrossHair: the string itself symbolic, accept/reject and value vs an independent recogniser",
+                text="parse_quantity / parse_concentration return v*m(prefix) resp. v*m(pn)/(w*m(pd)) for the complete "
+                     "prefix x unit tables, 6 classes of equivalent spellings parse equal and give identical containers "
+                     "through construction, transfer, create_solution, dilute, fill_to and get_concentration; with the "
+                     "string symbolic (CrossHair) malformed strings are rejected and well-formed ones accepted."),
     'C02': dict(engine=E1, design='§4 C02',
                 technique="symbolic execution of Container.transfer/Plate.transfer with z3 (QF_NRA/LRA), differential vs independent unit table",
                 text="size of the aliquot (in the unit of q), uniformity (cross-multiplied ratios) and destination gain "
